@@ -109,6 +109,20 @@ LOSSY_OK = {
 }
 
 
+def _pat_defs(p):
+    """All paths named anywhere inside a pattern (nested)."""
+    out = []
+    if isinstance(p, dict):
+        if p.get("def") and str(p.get("k", "")).startswith("p_"):
+            out.append(p["def"])
+        for v in p.values():
+            out += _pat_defs(v)
+    elif isinstance(p, list):
+        for v in p:
+            out += _pat_defs(v)
+    return out
+
+
 def _v(p):
     """`pulldown_cmark::Tag::Link` -> `Tag::Link`."""
     return fb.last2(p) if p and p != "_" else p
@@ -254,6 +268,34 @@ def rule_r1(facts, rep, rid="C01-R1"):
                     lid = None
                     for name, i in fb.pat_bindings(arm["pat"]):
                         lid = i
+                    # accumulation, not overwrite, for text collected into a field outside a block (front matter: pulldown emits one Text per
+                    # line for CRLF input); the per-block assignments are checked per inner arm below
+                    inner_assigns = set(id(a_) for mm in fb.walk(body) if mm.get("k") == "match" and mm.get("src") == "Normal" for a_ in fb.walk(mm) if a_.get("k") == "assign")
+                    for asg in [x for x in fb.walk(body) if x.get("k") == "assign" and id(x) not in inner_assigns]:
+                        lhs = asg["l"]
+                        if lhs.get("k") != "field" or lid is None or not fb.uses_local(asg["r"], lid):
+                            continue
+                        k5 = "%s|field:%s|accumulates" % (key, lhs["name"])
+                        if ("field", lhs["name"]) in c.mentions(asg["r"]):
+                            rep.ok(rid, k5, "new text is appended to the existing %s" % lhs["name"], loc(f, asg))
+                        else:
+                            rep.violation(rid, k5, "`%s` is overwritten by each Text event instead of appended to: pulldown may deliver one block's text as several Text events (one per line "
+                                          "for CRLF front matter), so all but the last piece are lost" % lhs["name"], loc(f, asg))
+                    for mm in [x for x in fb.walk(body) if x.get("k") == "match" and x.get("src") == "Normal"]:
+                        for ivs, iarm in A.arms_of(mm):
+                            if any(x.endswith("CodeBlock") for x in ivs):
+                                continue
+                            for asg in [x for x in fb.walk(iarm["body"]) if x.get("k") == "assign" and x["l"].get("k") == "field" and lid is not None and fb.uses_local(x["r"], lid)]:
+                                k5 = "%s|inner:%s|accumulates" % (key, "+".join(fb.last_seg(x) for x in ivs))
+                                if ("field", asg["l"]["name"]) in c.mentions(asg["r"]):
+                                    rep.ok(rid, k5, "new text is appended", loc(f, asg))
+                                    continue
+                                made = [g.def_ for v_ in ivs for g in facts.body_fns() if g.crate == "liwe" and "::tests::" not in g.def_
+                                        for y in fb.walk(g.body) if y.get("k") == "call" and y.get("ctor") and (fb.callee(y) or "").endswith("DocumentBlock::" + fb.last_seg(v_))]
+                                if made:
+                                    rep.violation(rid, k5, "text of a %s is overwritten by each Text event instead of appended to (the block is built in %s)" % (ivs, made[0]), loc(f, asg))
+                                else:
+                                    rep.ok(rid, k5, "overwrite in an arm for a block kind the reader never builds (no DocumentBlock::%s constructor call in liwe): unreachable" % fb.last_seg(ivs[0]), loc(f, asg), nontrivial=False)
                     for mm in [x for x in fb.walk(body) if x.get("k") == "match" and x.get("src") == "Normal"]:
                         for ivs, iarm in A.arms_of(mm):
                             k4 = "%s|inner:%s|forwards-text" % (key, "+".join(fb.last_seg(x) for x in ivs))
@@ -442,6 +484,31 @@ def rule_r1b(facts, rep, rid="C01-R1b"):
                     rep.violation(rid, key, "wildcard arm in append_inline hides which block kinds drop their text", loc(api, arm["body"]))
                 else:
                     rep.ok(rid, key, "not a text holder (text of code blocks is appended by the Text arm; rules have none)", loc(api, arm["body"]), nontrivial=False)
+
+                # list arms re-dispatch the inline to the item's last block (tight items carry their text directly): the fresh paragraph must be opened
+                # whenever that block is not an open paragraph - after a heading the text would be merged into it, after a code block / rule dropped
+                if vs_ in ("OrderedList", "BulletList"):
+                    k2 = key + "|redispatch-only-into-open-paragraph"
+                    opens = [y for y in fb.walk(arm["body"]) if y.get("k") == "call" and y.get("ctor") and (fb.callee(y) or "").endswith("DocumentBlock::Para")]
+                    if not opens:
+                        rep.violation(rid, k2, "append_inline's %s arm no longer opens a paragraph for loose item text" % vs_, loc(api, arm["body"]))
+                        continue
+                    # the kind test on the item's last block, in any form (matches!, match, if let)
+                    kinds = set()
+                    tests = 0
+                    for mm in [y for y in fb.walk(arm["body"]) if y.get("k") in ("match", "letx")]:
+                        e_ = mm.get("e") if mm["k"] == "match" else mm.get("init")
+                        if e_ is not None and any(z.get("k") == "mcall" and z["name"] in ("last", "last_mut") for z in fb.walk(e_)):
+                            pats = [a_["pat"] for a_ in mm.get("arms", [])] if mm["k"] == "match" else [mm.get("pat")]
+                            for d_ in _pat_defs(pats):
+                                if "DocumentBlock::" in fb.norm(d_):
+                                    kinds.add(fb.last_seg(fb.norm(d_)))
+                                    tests += 1
+                    if {"Para", "Plain"} <= kinds and not (kinds - {"Para", "Plain"}):
+                        rep.ok(rid, k2, "a new paragraph is opened unless the item's last block is a Para / Plain", loc(api, opens[0]))
+                    else:
+                        rep.violation(rid, k2, "the %s arm hands loose item text to the item's last block without testing that it is an open paragraph (kinds tested: %s): text that follows "
+                                      "a heading inside a tight item is merged into the heading, text after a code block is dropped" % (vs_, sorted(kinds) or "none"), loc(api, opens[0]))
 
 
 # ------------------------------------------------------------------------------------------------------------ R2
@@ -1225,6 +1292,12 @@ def rule_r7(facts, rep, rid="C01-R7"):
             n += 1
             key = "%s|%s|%d" % (f.def_, x["name"], i)
             why = None
+            if cal.startswith(("core::slice::", "std::slice::")) and x["name"] in ("last", "first"):
+                # a shared borrow of one element: nothing is removed; if its only consumer is a kind test (a match / matches! whose arms bind nothing) it is a pure query
+                par = next(iter(ctx(f).parents(x)), None)
+                if par is not None and par.get("k") == "match" and par.get("e") is x and not any(fb.pat_bindings(a_["pat"]) for a_ in par.get("arms", [])):
+                    rep.ok(rid, key, "pure query: `slice::%s()` is only tested for its kind (`%s`)" % (x["name"], fb.show(par)[:60]), loc(f, x), nontrivial=False)
+                    continue
             for (fs, nm, ordn), reason in LOSSY_OK.items():
                 if f.def_.endswith(fs) and nm == x["name"] and ordn == i:
                     why = reason
@@ -1249,6 +1322,8 @@ TRIM_OK = {
     ("GraphBlock::to_markdown", "trim", 0): ("query:", "`lang.trim().is_empty()`: decides whether a language tag is printed, the value itself is not trimmed"),
     ("GraphBlock::to_markdown", "trim_matches", 0): ("payload:newline-pattern", "code block body: blank lines at its edges are presentation (the fence supplies them); the pattern is a single '\\n'"),
     ("GraphBlock::to_markdown", "trim_matches", 1): ("payload:newline-pattern", "code block body: blank lines at its edges are presentation (the fence supplies them); the pattern is a single '\\n'"),
+    ("GraphInline::to_markdown", "strip_suffix", 0): ("payload:GraphInline::Link.0", "reference url: the configured extension is taken off only to be appended again by the same format! "
+                                                      "(re-checked: the pattern is `options.refs_extension` and the branch's format! writes `options.refs_extension` back)"),
     ("GraphBlock::to_markdown", "trim", 1): ("formatted-with-visible-prefix", "quote lines are trimmed AFTER the `> ` marker is prepended: only trailing whitespace (and the space of an empty `> ` line) goes"),
 }
 
@@ -1304,6 +1379,17 @@ def _operand_class(c, call):
     return "other:" + fb.show(r)[:30]
 
 
+def _suffix_reappended(c, f, call):
+    """The pattern of the strip is the field `refs_extension`, and the innermost enclosing block's value (the format!) mentions `refs_extension` outside the strip call."""
+    if not call["args"] or ("field", "refs_extension") not in c.mentions(call["args"][0]):
+        return False
+    inside = set(id(y) for y in fb.walk(call))
+    for p in c.parents(call):
+        if p.get("k") == "block" and p.get("e") is not None:
+            return any(y.get("k") == "field" and y.get("name") == "refs_extension" and id(y) not in inside for y in fb.walk(p["e"]))
+    return False
+
+
 def rule_r8(facts, rep, rid="C01-R8"):
     rep.rule(rid, "whitespace trimming / stripping / replacing inside the text printers is confined to audited sites, each with its audited operand class: a trim applied to a content "
                   "line before the block marker is prepended (instead of to the marked line) strips the indentation that keeps nested code, sub-lists and continuation paragraphs inside "
@@ -1335,6 +1421,9 @@ def rule_r8(facts, rep, rid="C01-R8"):
             elif not cls.startswith(ent[0]):
                 rep.violation(rid, key, "`.%s(..)` in %s is now applied to a `%s` value; the audited site applies it to `%s` (%s): trimming the content line itself strips the leading "
                               "indentation that keeps nested blocks inside their quote / item" % (x["name"], nm, cls, ent[0], ent[1]), loc(f, x))
+            elif x["name"] == "strip_suffix" and not _suffix_reappended(c, f, x):
+                rep.violation(rid, key, "`.strip_suffix(..)` in %s: the stripped suffix is not the configured reference extension written back by the same branch - the tail of every "
+                              "reference url that matches it is lost (the link is retargeted)" % nm, loc(f, x))
             else:
                 rep.ok(rid, key, "audited (%s): %s" % (cls, ent[1]), loc(f, x))
     rep.floor(rid, "trimming sites in the printers", n, 4)
